@@ -947,3 +947,17 @@ Lemma fx_shutdown_finishes_fixed :
   fx_finished (l_env (lrun fx_plugins_chk fx_blocked fx_env_step fx_ack (lts_init fx_init)
                         [EConnect 1; ESend 1 (B "shutdown"); EDrop 1; EHandle 1])) = true.
 Proof. reflexivity. Qed.
+
+(** Before its repair [wait] panicked once the shutdown had collected its acknowledgements: a request
+    that was accepted before the shutdown and handled after it got an empty reply (the task died);
+    the repaired plugin answers [ok]. *)
+Lemma fx_wait_after_shutdown_v0 :
+  let evs := [EConnect 1; EConnect 2; ESend 2 (B "shutdown"); EFin 2; EHandle 2; ESend 1 (B "wait"); EFin 1; EHandle 1] in
+  conn_get 1 (l_conns (lrun fx_plugins_chk_v0 fx_blocked fx_env_step fx_ack (lts_init fx_init) evs)) = Some (PReplied []) /\
+  conn_get 1 (l_conns (lrun fx_plugins_chk fx_blocked fx_env_step fx_ack (lts_init fx_init) evs)) = Some (PReplied (B "ok")) /\
+  ~ plugins_total fx_plugins_chk_v0.
+Proof.
+  cbn zeta. split; [vm_compute; reflexivity|]. split; [vm_compute; reflexivity|].
+  intros T. destruct (T (B "wait") wait_plugin_v0 eq_refl [] (fx_shutdown_effect true fx_init)) as [r E].
+  vm_compute in E. discriminate E.
+Qed.
